@@ -113,6 +113,14 @@ theorem D_sum_no_overflow (x y z k xs j k' aMax sMax : ℕ) (hxs : xs ≤ y) (hy
     have : ((x * (k' - j) : ℕ) : ℤ) ≤ (sMax : ℤ) := by exact_mod_cast hs
     omega
 
+/-- **`prime * prime` of D.cpp:108/146 (an `int64_t` product) fits**: every level the loops of `D_thread` visit has
+    `b ≤ max_b = π(min3(√(x/low1), √limit, x⋆))`, hence `p_b² ≤ limit ≤ x/z < 2^63` -/
+theorem D_prime_square_fits (x xs low limit b : ℕ) (hb1 : 1 ≤ b)
+    (hb : b ≤ π (min (min (Nat.sqrt (x / max low 1)) (Nat.sqrt limit)) xs)) : Spec.p b * Spec.p b ≤ limit := by
+  have h1 : Spec.p b ≤ min (min (Nat.sqrt (x / max low 1)) (Nat.sqrt limit)) xs := (Spec.p_le_iff hb1).2 hb
+  have h2 : Spec.p b ≤ Nat.sqrt limit := le_trans h1 (le_trans (min_le_left _ _) (min_le_right _ _))
+  exact le_trans (Nat.mul_le_mul h2 h2) (Nat.sqrt_le limit)
+
 /-! non-vacuity (tests, labelled as such): the hypotheses hold on a concrete work item with two segments
     (x = 10^6, y = 100, z = 10^4, c = 4, `int64_t`), and the checks do report -/
 example : ∃ v, s2HardThreadC (2 ^ 63 - 1) (2 ^ 63 - 1) (refSieve (idealEnv 100 65535 100).primes) (idealEnv 100 65535 100)
@@ -206,6 +214,7 @@ end Pc.C16Safety4
 #print axioms Pc.C16Safety4.D_values_bounded
 #print axioms Pc.C16Safety4.S2_hard_sum_no_overflow
 #print axioms Pc.C16Safety4.D_sum_no_overflow
+#print axioms Pc.C16Safety4.D_prime_square_fits
 #print axioms Pc.C16Safety4.S1_no_overflow
 #print axioms Pc.C16Safety4.Phi0_no_overflow
 #print axioms Pc.C16Safety4.S1_Phi0_128_no_overflow
